@@ -19,6 +19,14 @@ RULE = ("Hypothesis draws d in {2,3,50,300,1000(,3000)} or 2..40, cycled mode-si
         "scaled oppositely (entries up to 2^+-1000 with a representable product per core). Oracle = harness.oracle.gram_ref "
         "(frexp-renormalised Gram recursion with unbounded integer exponent) with a conditioning-aware first-order rounding bound "
         "obtained from a left and a right sweep of the same recursion on |cores|; metamorphic power-of-two rescaling of one core. "
+        "Sub-check zero_terms: accuracy of pairs for which one or two of <Y1,Y1>, <Y1,Y2>, <Y2,Y2> are EXACTLY zero (Y1 all zero, one zero "
+        "core of Y1 at the first / last / middle / drawn position - also after cores of large scale, supports disjoint along one mode) at "
+        "tiny, moderate and huge total norms with independent scale profiles of the two tensors. Sub-check shared: tensors built from "
+        "shared core OBJECTS ([A] + [B]*(d-2) + [C], runs / alternation / halves of a pool of 1-3 objects, rank-1 chains whose end cores are "
+        "the chain object too), Y2 = the same list, a shallow copy, a shallow copy with one or two cores replaced (perturbed, fresh, "
+        "another pool object, an equal-valued copy, a rescaled copy, one new object at two places; inside a run, at its start, at the "
+        "ends), the chain shifted by one position, or all-distinct objects; mul_scalar / norm / accuracy in both argument orders and "
+        "orthogonalize / truncate, with and without use_stab, each against the reference and against the same call on deep copies. "
         "Non-trivial = the plain (use_stab=False) computation is not finite-and-normal while the reference value is non-zero; "
         "distinct by SHA-1 of the case.")
 TOLERANCES = ("scalar product: |v 2^p / ref - 1| <= 8 eps sum_k (r1 s1 + n + 2) rho_k, rho_k = ||T_k^abs |v_k|||_2 ||W_k+1||_2 / |<Y1,Y2>| "
@@ -28,14 +36,20 @@ TOLERANCES = ("scalar product: |v 2^p / ref - 1| <= 8 eps sum_k (r1 s1 + n + 2) 
               "orthogonalize: orthonormality defect <= 64 eps r n, 2(log2||Z_k|| + p) against the Gram reference with the same bound, "
               "||Z 2^p - Y||^2/||Y||^2 (three reference Gram values) <= its own rounding bound; truncate: that distance^2 <= "
               "(e(1+1e-3))^2 + 16 (d-1) R eps (eigh floor, in quadrature) + rounding bound; mantissa in [1-4eps, 2) because "
-              "floor(log2(x)) may round up for x within an ulp of a power of two; rescaling: bit-identical mantissa, exponent shifted exactly")
+              "floor(log2(x)) may round up for x within an ulp of a power of two; rescaling: bit-identical mantissa, exponent shifted exactly; "
+              "shared objects versus deep copies and the two argument orders: bit-identical, else within 3x the rounding bound of the reference "
+              "(asserted when that bound is <= 0.1; BLAS kernels may depend on the alignment of a buffer), tensors: relative distance^2 "
+              "from three reference Gram values <= 2x its own rounding bound; an exactly zero Gram term enters the reference of accuracy as 0 "
+              "with no exponent")
 ASSUMPTIONS = ["d >= 2",
                "every single contraction step is representable: per-core scales s_k in [-480, 480] (pair sums s1_k + s2_k in [-960, 960]; "
                "cores of 2^520 make G1*G2 overflow inside mul_scalar and cores of 2^-520 make it underflow) - the overflow/underflow of "
                "the whole quantity comes from the product over many cores; the `opposed` operands of mul_scalar have entries up to 2^+-900 "
                "with pair sums in the same window",
                "bulk values of modulus < 2^-20 are replaced by 2^-20 in the U(-1,1) family (no subnormal products at the edge of the window)",
-               "Y2 of accuracy is not the zero tensor (the documented return for it is the undecided -1 # TODO)"]
+               "Y2 of accuracy is not the zero tensor (the documented return for it is the undecided -1 # TODO); Y1 may be zero and the "
+               "pair may be exactly orthogonal",
+               "shared core objects: all repeated cores of one chain have the same shape (r, n, r) and one power-of-two scale per object"]
 
 LO, HI = -480, 480            # per-core log2 scale window
 EXACT_LO = -900               # a contraction step of at least this log2 size scales exactly under a power-of-two factor (no subnormal terms)
@@ -313,8 +327,11 @@ def scalar_cases(draw, tier, tiny=False):
             "same_scales": draw(st.booleans()), "shift": draw(shifts()), "tiny": tiny}
 
 
+ZERO_RELS = ["y1zero", "y1zero", "zerocore", "zerocore", "zerocore", "disjoint", "disjoint", "disjoint"]
+
+
 @st.composite
-def accuracy_cases(draw, tier, tiny=False):
+def accuracy_cases(draw, tier, tiny=False, zero_terms=False):
     d = draw(dims(tier))
     Y1 = draw(tensor_specs(d))
     Y2 = draw(tensor_specs(d))
@@ -323,10 +340,28 @@ def accuracy_cases(draw, tier, tiny=False):
     gap = draw(st.one_of(st.just(0), st.integers(-620, 620), st.integers(-40, 40), st.integers(-620, -470),
                          st.sampled_from([-497, -498, -499, -500, -501, -502, -503])))
     dtotal = draw(st.one_of(st.just(0), st.integers(-40, 40), st.integers(-620, 620), st.integers(-30000, 30000)))
-    return {"Y1": Y1, "Y2": Y2, "rel": draw(st.sampled_from(["indep"] * 5 + ["perturbed"] * 3 + ["same"])),
+    if zero_terms:
+        # one of <Y1,Y1>, <Y1,Y2>, <Y2,Y2> ... is EXACTLY zero: Y1 all zero / one zero core of Y1 / disjoint supports along one mode
+        rel = draw(st.sampled_from(ZERO_RELS))
+        if rel == "disjoint":
+            Y1["nm"] = Y2["nm"] = [max(2, Y1["nm"][0])] + Y1["nm"][1:]
+    else:
+        rel = draw(st.sampled_from(["indep"] * 5 + ["perturbed"] * 3 + ["same"]))
+    case = {"Y1": Y1, "Y2": Y2, "rel": rel,
             "q": draw(st.integers(0, 45)), "gap": gap, "gj": draw(st.integers(0, 10 ** 6)),
             "own_scales": draw(st.sampled_from([True, True, False])), "sc2": draw(scale_specs(tiny)), "dtotal": dtotal,
             "sc": draw(scale_specs(tiny)), "shift": draw(shifts()), "tiny": tiny}
+    if zero_terms:
+        case["zpos"] = draw(st.sampled_from(["first", "last", "last", "mid", "frac", "frac"]))
+        case["zj"] = draw(st.integers(0, 10 ** 6))
+        case["derived"] = draw(st.booleans())                       # Y2 = the values of Y1 (before the zeroing) at other scales / independent data
+        case["y1_big"] = draw(st.sampled_from([False, False, True]))  # the scale profile of Y1 is mirrored to a positive total (zero after large cores)
+    return case
+
+
+@st.composite
+def zero_term_cases(draw, tier):
+    return draw(accuracy_cases(tier, tiny=draw(st.sampled_from([True, True, False])), zero_terms=True))
 
 
 @st.composite
@@ -402,10 +437,16 @@ def pair_from_case(case):
 def prop_scalar(case, ctx):
     Y1, Y2, s1, s2, rel = pair_from_case(case)
     d = len(Y1)
+    ctx.label(f"d={d}" if d in (2, 3, 50, 300, 1000, 3000) else "d=other", "rel:" + rel, "pat:" + case["sc1"]["pat"])
+    run_scalar(ctx, Y1, Y2, s1, s2, case["shift"])
+
+
+def run_scalar(ctx, Y1, Y2, s1, s2, shift):
+    """mul_scalar(Y1, Y2, use_stab=True) against the reference, the plain result and a power-of-two rescaling of one core of Y1."""
+    d = len(Y1)
     ref = Gram(Y1, Y2)
     rv, rp = gram_ref(Y1, Y2)
     g = Guard(ctx, "mul_scalar(use_stab=True)")
-    ctx.label(f"d={d}" if d in (2, 3, 50, 300, 1000, 3000) else "d=other", "rel:" + rel, "pat:" + case["sc1"]["pat"])
     snap = snapshot(Y1), snapshot(Y2)
     v, p = check_stab_pair(g, g.lib(teneva.mul_scalar, Y1, Y2, use_stab=True), "mul_scalar(use_stab=True)")
     unchanged(ctx, Y1, snap[0], "mul_scalar")
@@ -425,10 +466,10 @@ def prop_scalar(case, ctx):
         ctx.label("plain_overflows" if not math.isfinite(plain) or abs(plain) >= 1e290 else "plain_underflows")
     # rescaling core j of Y1 by 2^s shifts p by s and nothing else.  Exact when step j has no subnormal terms; a term of the state that
     # is 2^-122 below its maximum may still be flushed, which is invisible in the result only if no later step amplifies it: tol <= GATE.
-    j = case["shift"]["jf"] % d
+    j = shift["jf"] % d
     t = int(s1[j] + s2[j])
-    lo, hi = win(case)
-    s = max(EXACT_LO - t, min(2 * hi - t, case["shift"]["s"]))
+    lo, hi = LO, HI
+    s = max(EXACT_LO - t, min(2 * hi - t, shift["s"]))
     s = max(-960 - int(s1[j]), min(960 - int(s1[j]), s))
     if s != 0 and not ref.zero and ref.tol <= GATE and t >= EXACT_LO and EXACT_LO <= t + s <= 2 * hi:
         v2, p2 = ctx.lib(teneva.mul_scalar, rescale(Y1, j, s), Y2, use_stab=True)
@@ -439,6 +480,7 @@ def prop_scalar(case, ctx):
             ctx.check(p2 == p + s and v2 == v, "mul_scalar: rescaling one core by 2^s must shift p by s and keep the mantissa bit-identical",
                       s=s, j=j, before=(v, p), after=(v2, p2))
         ctx.label("rescaled")
+    return v, p, ref, (rv, rp), plain, representable
 
 
 def norm_tensor(case):
@@ -472,11 +514,16 @@ def check_norm_value(g, ctx, z, q, ref, rv, rp, what):
 def prop_norm(case, ctx):
     Y, s = norm_tensor(case)
     d = len(Y)
+    ctx.label(f"d={d}" if d in (2, 3, 50, 300, 1000, 3000) else "d=other", "pat:" + case["sc"]["pat"], "fam:" + case["Y"]["fam"])
+    run_norm(ctx, Y, s, case["shift"])
+
+
+def run_norm(ctx, Y, s, shift):
+    d = len(Y)
     ref = Gram(Y, Y)
     rv, rp = gram_ref(Y, Y)
     what = "norm(use_stab=True)"
     g = Guard(ctx, what)
-    ctx.label(f"d={d}" if d in (2, 3, 50, 300, 1000, 3000) else "d=other", "pat:" + case["sc"]["pat"], "fam:" + case["Y"]["fam"])
     snap = snapshot(Y)
     z, q = check_stab_pair(g, g.lib(teneva.norm, Y, use_stab=True), what)
     unchanged(ctx, Y, snap, "norm")
@@ -492,9 +539,9 @@ def prop_norm(case, ctx):
     ctx.nontrivial(nt)
     if nt:
         ctx.label("plain_overflows" if not math.isfinite(plain) or plain >= 1e290 or plain != plain else "plain_underflows")
-    j = case["shift"]["jf"] % d
-    lo, hi = win(case)
-    sh = max(EXACT_LO // 2 - int(s[j]), min(hi - int(s[j]), case["shift"]["s"]))
+    j = shift["jf"] % d
+    lo, hi = LO, HI
+    sh = max(EXACT_LO // 2 - int(s[j]), min(hi - int(s[j]), shift["s"]))
     if sh != 0 and not ref.zero and ref.tol <= GATE and 2 * int(s[j]) >= EXACT_LO and EXACT_LO <= 2 * (int(s[j]) + sh) <= 2 * hi:
         z2, q2 = ctx.lib(teneva.norm, rescale(Y, j, sh), use_stab=True)
         if abs(float(z) - 1.0) <= 8 * EPS or float(z2) < 1.0 or float(z) < 1.0:
@@ -504,6 +551,7 @@ def prop_norm(case, ctx):
             ctx.check(q2 == q + sh and float(z2) == float(z), "norm: rescaling one core by 2^s must shift the exponent by s and keep the mantissa bit-identical",
                       s=sh, j=j, before=(float(z), q), after=(float(z2), q2))
         ctx.label("rescaled")
+    return float(z), q, ref, plain, representable
 
 
 # ------------------------------------------------------------------------------------------- accuracy
@@ -524,16 +572,21 @@ def gap_path(d, j, gap):
 def accuracy_pair(case):
     lo, hi = win(case)
     d = case["Y1"]["d"]
-    s1 = scales(d, case["sc"], lo, hi)
     rel = case["rel"]
-    if rel == "indep" and case["own_scales"]:
+    zero_family = rel in ("y1zero", "zerocore", "disjoint")
+    sc1 = dict(case["sc"])
+    if zero_family and case.get("y1_big"):
+        sc1["total"] = abs(sc1["total"])
+    s1 = scales(d, sc1, lo, hi)
+    indep = rel == "indep" or (zero_family and not case.get("derived"))
+    if (rel == "indep" or zero_family) and case["own_scales"]:
         sc2 = dict(case["sc2"])
         sc2["total"] = case["sc"]["total"] + case["dtotal"]          # an own profile (other end, other pattern) around the same total
         s2 = scales(d, sc2, lo, hi)
     else:
-        s2 = np.clip(s1 + gap_path(d, case["gj"] % d, case["gap"]), lo, hi)
+        s2 = np.clip(scales(d, case["sc"], lo, hi) + gap_path(d, case["gj"] % d, case["gap"]), lo, hi)
     Y1 = build(case["Y1"], s1)
-    if rel == "indep":
+    if indep:
         Y2 = build(case["Y2"], s2)
     else:
         Y2 = [np.ldexp(G, int(b - a)) for G, a, b in zip(Y1, s1, s2)]
@@ -541,23 +594,48 @@ def accuracy_pair(case):
             j = case["shift"]["jf"] % d
             rng = np.random.default_rng(case["Y2"]["seed"])
             Y2[j] = Y2[j] * (1.0 + 2.0 ** -case["q"] * rng.uniform(-1, 1, size=Y2[j].shape))
+    if zero_family:
+        z = {"first": 0, "last": d - 1, "mid": d // 2, "frac": case["zj"] % d}[case["zpos"]]
+        if rel == "y1zero":
+            for G in Y1:
+                G[...] = 0.0
+        elif rel == "zerocore":
+            Y1[z][...] = 0.0
+        else:
+            n = mode_sizes(case["Y1"])
+            js = [k for k in range(d) if n[k] >= 2]                 # not empty: the strategy makes n_0 >= 2
+            j = min(js, key=lambda k: (abs(k - z), k))
+            Y1[j][:, 1:, :] = 0.0
+            Y2[j][:, 0, :] = 0.0
     return Y1, Y2, s1, s2
 
 
 def prop_accuracy(case, ctx):
     Y1, Y2, s1, s2 = accuracy_pair(case)
     d = len(Y1)
-    what = "accuracy"
-    g = Guard(ctx, what)
-    own = case["rel"] == "indep" and case.get("own_scales", False)
+    own = case["rel"] in ("indep", "y1zero", "zerocore", "disjoint") and case.get("own_scales", False)
     ctx.label(f"d={d}" if d in (2, 3, 50, 300, 1000, 3000) else "d=other", "rel:" + case["rel"], "pat:" + case["sc"]["pat"],
               "scales:own" if own else "scales:shared+gap")
     if own and case["sc"]["pat"] != case["sc2"]["pat"]:
         ctx.label("different_profiles")
+    if "zpos" in case and case["rel"] != "y1zero":
+        ctx.label("zero_at:" + case["zpos"])
+    run_accuracy(ctx, Y1, Y2, s1, s2, case["shift"])
+
+
+def run_accuracy(ctx, Y1, Y2, s1, s2, shift):
+    """accuracy(Y1, Y2) against the three reference Gram values; returns (result, relative tolerance of the value or None)."""
+    d = len(Y1)
+    what = "accuracy"
+    g = Guard(ctx, what)
+    asserted = None
     # reference: ||Y1 - Y2||^2 = <Y1,Y1> - 2 <Y1,Y2> + <Y2,Y2>, every term with its own unbounded exponent and rounding bound
     grams = [Gram(Y1, Y1), Gram(Y1, Y2), Gram(Y2, Y2)]
     refs = [gram_ref(Y1, Y1), gram_ref(Y1, Y2), gram_ref(Y2, Y2)]
     ctx.check(not grams[2].zero and refs[2][0] > 0, "harness: Y2 must not be the zero tensor")
+    nzero = sum(1 for (rv, rp) in refs if rv == 0)
+    if nzero:
+        ctx.label(f"exact_zero_terms={nzero}")
     cm, cp = refs[2]
     E = max(rp for (rv, rp) in refs if rv != 0)
     terms = [co * pow2(rv, rp - E) for co, (rv, rp) in zip((1.0, -2.0, 1.0), refs)]
@@ -582,14 +660,14 @@ def prop_accuracy(case, ctx):
         if Lh >= 500.5 + slack:
             g.check(acc == 1e299, "exponent gap above 500: the saturation value 1e299 is expected", got=acc, log2_ref=Lh)
             ctx.label("saturated_high")
-            return
+            return acc, None
         if Lh <= -500.5 - slack:
             g.check(acc == 0.0, "exponent gap below -500: the saturation value 0 is expected", got=acc, log2_ref=Lh)
             ctx.label("saturated_low")
-            return
+            return acc, None
         if Lh > 500 - slack and acc == 1e299:
             ctx.label("saturation_window")
-            return
+            return acc, None
         if tol <= GATE:
             g.check(acc > 0, "distance is 0 although the reference distance is not", got=acc, log2_ref=Lh)
             m, e = math.frexp(acc)
@@ -597,6 +675,9 @@ def prop_accuracy(case, ctx):
             g.check(abs(ratio2 - 1) <= 3 * tol, "differs from the reference relative distance", got=acc, log2_got=math.log2(m) + e, log2_ref=Lh,
                     ratio2=ratio2, tol=3 * tol)
             ctx.label("value_asserted", "gap>100" if abs(Lh) > 100 else "gap<=100")
+            asserted = 3 * tol
+            if nzero:
+                ctx.label("value_asserted_with_exact_zero_term", "tiny_norm" if cp < -1100 else ("huge_norm" if cp > 1100 else "moderate_norm"))
     else:
         ctx.label("cancellation_dominated")
     # always: an upper bound from the absolute rounding bound of ||Y1-Y2||^2 (catches a wrong sign / dropped term under cancellation)
@@ -611,17 +692,19 @@ def prop_accuracy(case, ctx):
                     ctx.label("distance_at_rounding_level")
     # rescaling the same core of both tensors by 2^s leaves the relative distance bit-identical: every Gram term keeps its mantissa
     # (exact when step j has no subnormal terms and no flushed term is amplified later, i.e. moderate rounding bounds)
-    j = case["shift"]["jf"] % d
-    lo, hi = win(case)
+    # (an exactly zero Gram term stays exactly zero; the exponent the library attaches to it is meaningless and must not matter)
+    j = shift["jf"] % d
+    lo, hi = LO, HI
     a, b = int(min(s1[j], s2[j])), int(max(s1[j], s2[j]))
-    sh = max(EXACT_LO // 2 - a, min(hi - b, case["shift"]["s"])) if EXACT_LO // 2 - a <= hi - b else 0
-    if sh != 0 and 2 * a >= EXACT_LO and all((not gr.zero) and gr.tol <= 1.0 for gr in grams):
+    sh = max(EXACT_LO // 2 - a, min(hi - b, shift["s"])) if EXACT_LO // 2 - a <= hi - b else 0
+    if sh != 0 and 2 * a >= EXACT_LO and all(gr.zero or gr.tol <= 1.0 for gr in grams):
         acc2 = float(ctx.lib(teneva.accuracy, rescale(Y1, j, sh), rescale(Y2, j, sh)))
         if acc2 != acc:
             # floor(log2) within an ulp of a power of two may move one factor of 2 between a mantissa and its exponent
             ctx.check(abs(acc2 - acc) <= 8 * EPS * acc, "accuracy: rescaling the same core of both tensors by 2^s changed the result", s=sh, j=j, before=acc, after=acc2)
             ctx.label("rescale_not_bitwise")
         ctx.label("rescaled")
+    return acc, asserted
 
 
 # ------------------------------------------------------------------------------------------- orthogonalize / truncate
@@ -647,12 +730,18 @@ def prop_orth(case, ctx):
     Y = build(spec, s)
     if case.get("zero"):
         Y[case["zj"] % d][...] = 0.0
-    n = mode_sizes(spec)
     k = {"first": 0, "last": d - 1, "mid": d // 2, "frac": case["kf"] % d}[case["k"]]
+    ctx.label(f"d={d}" if d in (2, 3, 50, 300, 1000, 3000) else "d=other", "pat:" + case["sc"]["pat"], "k:" + case["k"])
+    run_orth(ctx, Y, k)
+
+
+def run_orth(ctx, Y, k):
+    """orthogonalize(Y, k, use_stab=True): returns (Z, p, Gram(Y, Y)); Z is None for an exactly zero tensor."""
+    d = len(Y)
+    n = oracle.shape_of(Y)
     what = f"orthogonalize(k={k}, use_stab=True)"
     gy = Gram(Y, Y)
     g = Guard(ctx, what)
-    ctx.label(f"d={d}" if d in (2, 3, 50, 300, 1000, 3000) else "d=other", "pat:" + case["sc"]["pat"], "k:" + case["k"])
     snap = snapshot(Y)
     res = g.lib(teneva.orthogonalize, Y, k, True)
     unchanged(ctx, Y, snap, what)
@@ -677,7 +766,7 @@ def prop_orth(case, ctx):
         # an exactly zero core: QR / RQ of a zero matrix has R = 0 exactly, so the zero travels to the pivot, which stays unscaled
         g.check(pm == 0.0, "the input has an exactly zero core but the pivot core of the result is not zero", pivot_max=pm, p=p)
         ctx.label("exact_zero")
-        return
+        return None, p, gy
     g.check(1.0 - 4 * EPS <= pm < 2.0, "pivot core not normalised to max modulus in [1, 2)", pivot_max=pm, p=p)
     rv, rp = gram_ref(Y, Y)
     if gy.tol <= GATE:
@@ -694,6 +783,7 @@ def prop_orth(case, ctx):
             ctx.label("distance_asserted<1e-3")
     plain = float(ctx.lib(teneva.norm, Y))
     ctx.nontrivial(not (normal_finite(plain) and plain > 0))
+    return Z, p, gy
 
 
 def truncate_tensor(case):
@@ -713,11 +803,17 @@ def prop_truncate(case, ctx):
     Y, s = truncate_tensor(case)
     d = len(Y)
     e = case["e"]
+    ctx.label(f"d={d}" if d in (2, 3, 50, 300, 1000, 3000) else "d=other", "pat:" + case["sc"]["pat"], f"e={e}", "sum" if case["sum"] else "generic")
+    run_truncate(ctx, Y, e)
+
+
+def run_truncate(ctx, Y, e):
+    """truncate(Y, e, use_stab=True): returns (Z, plain result or None)."""
+    d = len(Y)
     n = oracle.shape_of(Y)
     what = f"truncate(e={e}, use_stab=True)"
     gy = Gram(Y, Y)
     g = Guard(ctx, what)
-    ctx.label(f"d={d}" if d in (2, 3, 50, 300, 1000, 3000) else "d=other", "pat:" + case["sc"]["pat"], f"e={e}", "sum" if case["sum"] else "generic")
     snap = snapshot(Y)
     Z = g.lib(teneva.truncate, Y, e, use_stab=True)
     unchanged(ctx, Y, snap, what)
@@ -726,7 +822,7 @@ def prop_truncate(case, ctx):
     rin, rout = oracle.ranks_of(Y), oracle.ranks_of(Z)
     g.check(all(x <= y for x, y in zip(rout, rin)), "a rank increased", rin=rin[:12], rout=rout[:12])
     if gy.zero:
-        return
+        return Z, None
     rd = rel_dist2(Z, 0, Y, gy)
     r2, t2, a, b = rd
     R = max(rin)
@@ -741,8 +837,11 @@ def prop_truncate(case, ctx):
     nt = not (normal_finite(plain) and plain > 0)
     ctx.nontrivial(nt)
     # representable: the stabilised and the plain rounding denote the same tensor up to 2e
+    Zp = None
     if normal_finite(plain) and plain > 0 and -900 < gy.lo_path and gy.hi_path < 900 and abs(gy.log2()) < 600:
+        snap = snapshot(Y)
         Zp = ctx.lib(teneva.truncate, Y, e)
+        unchanged(ctx, Y, snap, f"truncate(e={e})")
         if oracle.wellformed(Zp, n) is None:
             rdp = rel_dist2(Z, 0, Zp)
             if rdp is not None:
@@ -750,6 +849,259 @@ def prop_truncate(case, ctx):
                 ctx.check(r2p <= (2 * e * (1 + 1e-3) / (1 - e)) ** 2 + 64 * (d - 1) * R * EPS + 2 * t2p + 8 * t2,
                           "truncate: stabilised and plain results differ by more than 2e although everything is representable", dist2=r2p, e=e)
                 ctx.label("representable")
+    return Z, Zp
+
+
+# ------------------------------------------------------------------------------------------- shared core objects
+# Long tensors are usually built from chain references: Y = [A] + [B] * (d - 2) + [C] holds the SAME ndarray object many times, and a
+# second tensor is often a shallow copy of the first with one core replaced.  Every routine is a function of the VALUES of the cores:
+# the results must be those for deep copies (and the reference), whatever the object identities and whatever the argument order.
+
+SHARED_Y2 = ["replace1"] * 5 + ["replace2", "replace2", "replace2same", "identical", "shallow", "shifted", "distinct"]
+
+
+@st.composite
+def shared_cases(draw, tier):
+    big = [4, 5, 6, 8, 50, 300] if tier == "quick" else [4, 5, 6, 8, 50, 300, 300, 1000, 3000]
+    d = draw(st.one_of(st.sampled_from(big), st.integers(3, 40)))
+    r = draw(st.sampled_from([1, 1, 2, 2, 3]))
+    return {"d": d, "n": draw(st.integers(1, 3)), "r": r, "K": draw(st.sampled_from([1, 1, 2, 3])),
+            "layout": draw(st.sampled_from(["run", "run", "run", "runs", "runs", "alt", "halves"])),
+            "ends": draw(st.sampled_from(["own", "own", "shared"])),
+            "fam": draw(st.sampled_from(["pm", "pm", "unif", "pos", "eye"])), "noise": draw(st.integers(3, 30)),
+            "seed": draw(st.integers(0, 2 ** 31 - 1)), "sc": draw(scale_specs()), "wide": draw(st.integers(0, 3)) == 0,
+            "y2": draw(st.sampled_from(SHARED_Y2)), "j1": draw(st.integers(0, 10 ** 6)), "j2": draw(st.integers(0, 10 ** 6)),
+            "jpos": draw(st.sampled_from(["any", "any", "any", "run_start", "first", "last", "second"])),
+            "repl": draw(st.sampled_from(["perturb", "perturb", "fresh", "fresh", "pool", "copy", "rescaled"])),
+            "q": draw(st.integers(0, 45)),
+            "op": draw(st.sampled_from(["scalar", "scalar", "scalar", "accuracy", "accuracy", "orth", "truncate"])),
+            "k": draw(st.sampled_from(["first", "last", "mid", "frac"])), "kf": draw(st.integers(0, 10 ** 6)),
+            "e": draw(st.sampled_from([1e-5, 1e-3, 0.1])), "which": draw(st.sampled_from([1, 2, 2])), "shift": draw(shifts())}
+
+
+def shared_pair(case):
+    """Y1 = chain of shared core objects, Y2 = a tensor sharing objects with Y1; per-position log2 scales s1, s2."""
+    d, n, r, K = case["d"], case["n"], case["r"], case["K"]
+    rng = np.random.default_rng(case["seed"])
+    noise = 2.0 ** -case["noise"]
+    T = int(case["sc"]["total"])
+    base = max(LO + 8, min(HI - 8, T // d if T >= 0 else -((-T) // d)))
+    a = int(case["sc"]["amp"]) if case["wide"] else int(case["sc"]["amp"]) % 8
+    a = max(0, min(a, HI - abs(base)))
+    if case["layout"] in ("runs", "halves"):
+        a = min(a, 20000 // d)                                      # partial products of long one-sided runs stay within 2^+-30000 or so
+    offs = [a, -a, 0]
+    scale_of = {}
+
+    def mk(shape, off):
+        G = np.ldexp(bulk(rng, case["fam"], shape, noise), base + off)
+        scale_of[id(G)] = base + off
+        return G
+
+    pool = [mk((r, n, r), offs[i]) for i in range(K)]
+    mid = d - 2
+    if case["layout"] == "run":
+        idx = [0] * d
+    elif case["layout"] == "alt":
+        idx = [k % K for k in range(d)]
+    elif case["layout"] == "halves":
+        idx = [0 if k < d // 2 else (1 % K) for k in range(d)]
+    else:
+        idx, cur = [], 0
+        while len(idx) < d:
+            idx += [cur] * int(rng.integers(1, max(2, d // 3) + 1))
+            cur = (cur + 1 + int(rng.integers(0, max(1, K - 1)))) % K
+        idx = idx[:d]
+    if r == 1 and case["ends"] == "shared":
+        Y1 = [pool[idx[k]] for k in range(d)]                       # the end cores are chain objects too
+    else:
+        Y1 = [mk((1, n, r), 0)] + [pool[idx[k]] for k in range(1, d - 1)] + [mk((r, n, 1), 0)]
+    keep = list(Y1) + pool                                          # the ids in scale_of stay valid while these are alive
+
+    def replacement(G, kind):
+        sG = scale_of[id(G)]
+        if kind == "perturb":
+            H = G * (1.0 + 2.0 ** -case["q"] * rng.uniform(-1, 1, size=G.shape))
+        elif kind == "fresh":
+            H = np.ldexp(bulk(rng, case["fam"], G.shape, noise), sG)
+        elif kind == "rescaled":
+            sh = max(LO - sG, min(HI - sG, case["shift"]["s"] % 7 - 3))
+            H, sG = np.ldexp(G, sh), sG + sh
+        elif kind == "pool" and any(P is not G and P.shape == G.shape for P in pool):
+            return next(P for P in pool if P is not G and P.shape == G.shape)     # an object that sits elsewhere in Y1
+        else:
+            H = G.copy()                                            # equal values, another object
+        scale_of[id(H)] = sG
+        keep.append(H)
+        return H
+
+    def position(jf):
+        if case["jpos"] == "first":
+            return 0
+        if case["jpos"] == "last":
+            return d - 1
+        if case["jpos"] == "second":
+            return min(1, d - 1)
+        j = jf % d
+        if case["jpos"] == "run_start":
+            while j > 0 and Y1[j - 1] is Y1[j]:
+                j -= 1
+        return j
+
+    y2 = case["y2"]
+    j1, j2 = position(case["j1"]), case["j2"] % d
+    if y2 == "identical":
+        Y2 = Y1
+    elif y2 == "shallow":
+        Y2 = list(Y1)
+    elif y2 == "distinct":
+        # a generic tensor (every core its own object) against the chain tensor
+        Y2 = [replacement(G, "perturb" if case["repl"] in ("perturb", "copy") else "fresh") for G in Y1]
+    elif y2 == "shifted":
+        # own end cores, the middle cores are the objects of Y1 one position to the left (same shapes): shared objects, other alignment
+        Y2 = [replacement(Y1[0], "fresh")] + [Y1[k - 1] if Y1[k - 1].shape == Y1[k].shape else Y1[k] for k in range(1, d - 1)] \
+            + [replacement(Y1[-1], "fresh")]
+    else:
+        Y2 = list(Y1)
+        Y2[j1] = replacement(Y1[j1], case["repl"])
+        if y2 == "replace2" and j2 != j1:
+            Y2[j2] = replacement(Y1[j2], "perturb" if case["repl"] in ("pool", "copy") else case["repl"])
+        elif y2 == "replace2same" and j2 != j1 and Y1[j2].shape == Y1[j1].shape:
+            Y2[j2] = Y2[j1]                                         # one new object at two places
+    s1 = np.array([scale_of[id(G)] for G in Y1], dtype=np.int64)
+    s2 = np.array([scale_of[id(G)] for G in Y2], dtype=np.int64)
+    return Y1, Y2, s1, s2, keep
+
+
+def deep(Y):
+    return [np.array(G, copy=True) for G in Y]
+
+
+def agree_stab(ctx, what, a, b, tol, half=False):
+    """Two stabilised results (shared objects / deep copies, or the two argument orders) denote the same number: bit-identical, or equal
+    within the first-order rounding bound `tol` of the reference when that bound is meaningful."""
+    (v, p), (w, q) = (float(a[0]), a[1]), (float(b[0]), b[1])
+    if v == w and p == q:
+        ctx.label("agree:bitwise")
+        return
+    if v == 0 or w == 0:
+        ctx.check(False, f"{what}: one result is exactly zero, the other is not", first=(v, p), second=(w, q))
+        return
+    if tol is None or tol > 0.1:
+        ctx.label("agree:not_comparable")
+        return
+    off = (p - q) + math.log2(abs(v) / abs(w))
+    ctx.check((v > 0) == (w > 0) and abs(off) <= (1.5 if half else 3.0) * tol + 16 * EPS, f"{what}: results differ beyond the rounding bound",
+              first=(v, p), second=(w, q), log2_off=off, tol=tol)
+    ctx.label("agree:within_bound")
+
+
+def agree_plain(ctx, what, x, y, tol):
+    x, y = float(x), float(y)
+    if x == y or (x != x and y != y):
+        ctx.label("agree:bitwise")
+        return
+    if tol is None or tol > 0.1 or not (normal_finite(x) and normal_finite(y)):
+        ctx.label("agree:not_comparable")
+        return
+    ctx.check(abs(x - y) <= (3 * tol + 16 * EPS) * abs(y), f"{what}: results differ beyond the rounding bound", first=x, second=y, tol=tol)
+    ctx.label("agree:within_bound")
+
+
+def same_tensor(ctx, what, Z, pz, W, pw):
+    """Z 2^pz and W 2^pw denote the same tensor (relative distance^2 from three reference Gram values within its own rounding bound)."""
+    if all(A.shape == B.shape and A.tobytes() == B.tobytes() for A, B in zip(Z, W)) and pz == pw:
+        ctx.label("agree:bitwise")
+        return
+    rd = rel_dist2(Z, pz - pw, W)
+    if rd is None:
+        ctx.check(Gram(Z, Z).zero, f"{what}: one result is the zero tensor, the other is not")
+        return
+    r2, t2, a, b = rd
+    ctx.check(r2 <= 2 * t2 + 1e-20, f"{what}: results for shared core objects and for deep copies denote different tensors", dist2=r2, bound=2 * t2)
+    ctx.label("agree:within_bound")
+
+
+def prop_shared(case, ctx):
+    Y1, Y2, s1, s2, keep = shared_pair(case)
+    d = len(Y1)
+    D1 = deep(Y1)
+    D2 = D1 if Y2 is Y1 else deep(Y2)
+    op = case["op"]
+    nshared = sum(1 for k in range(1, d) if Y1[k] is Y1[k - 1])
+    ctx.label("op:" + op, "y2:" + case["y2"], "layout:" + case["layout"], f"d={d}" if d in (4, 5, 6, 8, 50, 300, 1000, 3000) else "d=other",
+              "repl:" + case["repl"], "rank1" if case["r"] == 1 else "rank>1")
+    if nshared:
+        ctx.label("repeated_object_in_Y1")
+    j1 = next((k for k in range(d) if Y2[k] is not Y1[k]), None)
+    if j1 is not None and 0 < j1 < d - 1 and Y1[j1 - 1] is Y1[j1] and Y1[j1 + 1] is Y1[j1]:
+        ctx.label("replaced_inside_a_run")
+    snaps = snapshot(Y1), snapshot(Y2)
+    if op == "scalar":
+        v, p, ref, _, plain, rep = run_scalar(ctx, Y1, Y2, s1, s2, case["shift"])
+        # the other argument order (the scalar product is symmetric), on the same objects
+        g = Guard(ctx, "mul_scalar(Y2, Y1, use_stab=True)")
+        w, q = check_stab_pair(g, g.lib(teneva.mul_scalar, Y2, Y1, use_stab=True), "mul_scalar")
+        rv, rp = gram_ref(Y1, Y2)
+        check_scalar_value(g, ctx, w, q, ref, rv, rp, "swapped arguments")
+        agree_stab(ctx, "mul_scalar(Y1, Y2) vs mul_scalar(Y2, Y1), shared core objects", (v, p), (w, q), None if ref.zero else ref.tol)
+        # deep copies: same values, no shared objects
+        for (A, B, C, D, res, nm) in ((Y1, Y2, D1, D2, (v, p), "mul_scalar(Y1, Y2)"), (Y2, Y1, D2, D1, (w, q), "mul_scalar(Y2, Y1)")):
+            rd = ctx.lib(teneva.mul_scalar, C, D, use_stab=True)
+            agree_stab(ctx, f"{nm}, use_stab=True: shared core objects vs deep copies", res, rd, None if ref.zero else ref.tol)
+            agree_stab(ctx, f"{nm}, use_stab=True: first argument deep-copied", ctx.lib(teneva.mul_scalar, C, B, use_stab=True), rd, None if ref.zero else ref.tol)
+            ps, pd = ctx.lib(teneva.mul_scalar, A, B), ctx.lib(teneva.mul_scalar, C, D)
+            agree_plain(ctx, f"{nm}: shared core objects vs deep copies", ps, pd, None if ref.zero else ref.tol)
+        if rep and ref.tol <= GATE:
+            ps = ctx.lib(teneva.mul_scalar, Y2, Y1)
+            ctx.check(abs(ps - plain) <= 4 * ref.tol * abs(plain), "mul_scalar: plain result depends on the argument order beyond rounding", first=plain, second=ps)
+        # the norms of both tensors
+        for (Y, D, s, nm) in ((Y1, D1, s1, "Y1"), (Y2, D2, s2, "Y2")):
+            z, qz, nref, nplain, _ = run_norm(ctx, Y, s, case["shift"])
+            agree_stab(ctx, f"norm({nm}, use_stab=True): shared core objects vs deep copies", (z, qz), ctx.lib(teneva.norm, D, use_stab=True),
+                       None if nref.zero else nref.tol, half=True)
+            agree_plain(ctx, f"norm({nm}): shared core objects vs deep copies", nplain, ctx.lib(teneva.norm, D), None if nref.zero else nref.tol)
+    elif op == "accuracy":
+        for (A, B, C, D, sa, sb, nm) in ((Y1, Y2, D1, D2, s1, s2, "accuracy(Y1, Y2)"), (Y2, Y1, D2, D1, s2, s1, "accuracy(Y2, Y1)")):
+            acc, tol = run_accuracy(ctx, A, B, sa, sb, case["shift"])
+            accd = float(ctx.lib(teneva.accuracy, C, D))
+            if acc == accd:
+                ctx.label("agree:bitwise")
+            elif tol is not None:
+                ctx.check(abs(acc - accd) <= 2 * tol * accd, f"{nm}: shared core objects vs deep copies differ beyond the rounding bound", shared=acc, deep=accd, tol=tol)
+                ctx.label("agree:within_bound")
+            else:
+                ctx.label("agree:not_comparable")
+    else:
+        Y, D = (Y1, D1) if case["which"] == 1 else (Y2, D2)
+        small = float(np.sum(np.abs(s2 if Y is Y2 else s1))) + 3 * d < 900          # every partial product is representable
+        if op == "orth":
+            k = {"first": 0, "last": d - 1, "mid": d // 2, "frac": case["kf"] % d}[case["k"]]
+            Z, p, gy = run_orth(ctx, Y, k)
+            Zd, pd = ctx.lib(teneva.orthogonalize, D, k, True)
+            if Z is not None:
+                same_tensor(ctx, f"orthogonalize(k={k}, use_stab=True)", Z, p, Zd, pd)
+            if small and not gy.zero:
+                Zp = ctx.lib(teneva.orthogonalize, Y, k)
+                why = oracle.wellformed(Zp, oracle.shape_of(Y))
+                ctx.check(why is None, f"orthogonalize(k={k}): result not well-formed / finite: {why}")
+                if why is None:
+                    r2, t2, _, _ = rel_dist2(Zp, 0, Y, gy)
+                    ctx.check(r2 <= 2 * t2, f"orthogonalize(k={k}): the result does not denote the input tensor (shared core objects)", dist2=r2, bound=2 * t2)
+                    ctx.label("plain_orth_asserted")
+        else:
+            Z, Zp = run_truncate(ctx, Y, case["e"])
+            Zd = ctx.lib(teneva.truncate, D, case["e"], use_stab=True)
+            if oracle.wellformed(Z, oracle.shape_of(Y)) is None and oracle.ranks_of(Z) == oracle.ranks_of(Zd):
+                same_tensor(ctx, f"truncate(e={case['e']}, use_stab=True)", Z, 0, Zd, 0)
+            if Zp is not None:
+                Zpd = ctx.lib(teneva.truncate, D, case["e"])
+                if oracle.wellformed(Zp, oracle.shape_of(Y)) is None and oracle.ranks_of(Zp) == oracle.ranks_of(Zpd):
+                    same_tensor(ctx, f"truncate(e={case['e']})", Zp, 0, Zpd, 0)
+    unchanged(ctx, Y1, snaps[0], "shared core objects: Y1")
+    unchanged(ctx, Y2, snaps[1], "shared core objects: Y2")
+    ctx.check(all(A.tobytes() == B.tobytes() for A, B in zip(Y1 + Y2, D1 + D2)), "a shared core object was modified")
+    del keep
 
 
 # ------------------------------------------------------------------------------------------- small cores (underflow side)
@@ -774,7 +1126,9 @@ SUBCHECKS = [
     Sub("scalar", prop_scalar, strategy=scalar_cases, quick=60, thorough=600),
     Sub("norm", prop_norm, strategy=norm_cases, quick=60, thorough=600),
     Sub("accuracy", prop_accuracy, strategy=accuracy_cases, quick=40, thorough=400),
+    Sub("zero_terms", prop_accuracy, strategy=zero_term_cases, quick=30, thorough=300),
     Sub("orthogonalize", prop_orth, strategy=orth_cases, quick=30, thorough=300),
     Sub("truncate", prop_truncate, strategy=truncate_cases, quick=25, thorough=250),
+    Sub("shared", prop_shared, strategy=shared_cases, quick=40, thorough=400),
     Sub("tiny", prop_tiny, strategy=tiny_cases, quick=40, thorough=400),
 ]
